@@ -27,6 +27,13 @@ PLANNED = {
 }
 
 CLAIMS = {
+ 'C13': {
+  'engine': 'histsim',
+  'technique': 'deterministic simulation of a long-lived compiling process: seeded operation histories (parse, compile, reuse of rules and program objects, failing compiles, clock jumps) in forks of a pristine zygote under a chosen PYTHONHASHSEED, refinement against pristine processes under the same and under another hash seed; simulated clock',
+  'text': 'Seeded search over operation histories x hash seeds x programs (repository corpus and generated programs with functors, all recursion modes, imports, typed dialects, experimental syntax); a clean batch is evidence over the sampled histories and seeds, not a proof. Exploration is the right level: the property quantifies over all histories and all hash seeds.',
+  'note': 'Trusted: fork() gives a pristine copy of the zygote interpreter (a sample of references also comes from a second, separately started interpreter); only the exception type is compared for failing requests; the C++ parser mode is not exercised.',
+  'design_ref': 'DESIGN.md section 5 (C13)',
+ },
  'C17': {
   'engine': 'groundsim',
   'technique': 'deterministic simulation with fault injection: seeded histories of runs (three real entry paths), fact-version switches, tampering and crash/interrupt/disk-full/lock faults against one persistent SQLite file; per-statement table reads/writes observed through the SQLite authorizer; oracle = reference evaluator plus ordering and atomicity invariants',
